@@ -27,11 +27,21 @@ fn gen_ops(rng: &mut Rng, tier: Tier) -> Vec<String> {
             "nw 0 ins:k:i4:-".to_string(),
         ];
         let kill_at = rng.below(4);
-        let mut steps = vec!["nb 1 o:0:1:p0of2".to_string(), "nb 1 o:0:3:all".to_string(), "nb 1 o:0:1:p1of2".to_string()];
+        let mut steps = if rng.chance(1, 2) {
+            vec!["nb 1 o:0:1:p0of2".to_string(), "nb 1 o:0:3:all".to_string(), "nb 1 o:0:1:p1of2".to_string()]
+        } else {
+            // three pieces: head and tail arrive, the middle one (a hole INSIDE the partial) arrives late or only by sync
+            let mut v = vec!["nb 1 o:0:1:p0of3".to_string(), "nb 1 o:0:1:p2of3".to_string()];
+            if rng.chance(1, 2) {
+                v.insert(1, "nb 1 o:0:3:all".to_string());
+            }
+            v
+        };
         if rng.chance(1, 2) {
-            steps.swap(0, 2);
+            let n = steps.len() - 1;
+            steps.swap(0, n);
         }
-        if rng.chance(1, 3) {
+        if steps.len() == 3 && steps[1].contains(":3:") && rng.chance(1, 3) {
             steps.remove(1);
         }
         for (i, st) in steps.iter().enumerate() {
